@@ -92,6 +92,46 @@ NEEDS = {
     "C19-r2-2": "output with >= 2 connections, a full target mailbox, simulation dropped while the broadcast is pending (ManuallyDrop released only when Completed)",
     "C20-r2-1": ">= 2 items queued, pulls down to one survivor, then an insert with the survivor's key (pull rewinds next_epoch when len <= 1)",
     "C20-r2-2": "an extract that empties the indexed queue, later inserts, then a retained older InsertKey (extract replaces the drained queue by a fresh one)",
+    "C01-r3-1": "inside one step_until: an earlier handler cancels the action that is next in the queue while a further live action is due before the target (fast path jumps to the target on a cancelled head)",
+    "C01-r3-2": "Scheduler::schedule_keyed_event on another thread with a time advance between the helper's time read and the queue lock (new helper checked_deadline reads the time unlocked)",
+    "C02-r3-1": "Output with exactly two connections, the first-connected recipient's mailbox full, the second send completing (new PairFuture is Ready when the second completes)",
+    "C02-r3-2": "broadcast to >= 2 recipients, one full mailbox, the freed slot stolen by a third sender between the pop and the woken sender's retry (all-woken fast path declares completion)",
+    "C03-r3-1": ">= 2 senders blocked on the same mailbox with capacity >= 2: the receiver notifies only when the queue was full before the pop",
+    "C03-r3-2": "output with >= 2 connections, one completed broadcast, then a broadcast meeting a full mailbox (slots reset only after a cancelled broadcast)",
+    "C04-r3-1": "fan-in: >= 2 sender tasks blocked on one full mailbox and >= 2 pops before it refills (conditional notify_one)",
+    "C04-r3-2": "multi-threaded executor, >= 256 consecutive polls on one worker in a step, empty injector, nothing to steal (worker leaves its run loop with tasks queued)",
+    "C05-r3-1": ">= 2 coalesced wake-ups before a poll plus one more wake from another worker during that poll (wake count acknowledged before polling)",
+    "C05-r3-2": "two concurrent wakes of one idle task within the load-to-CAS window, at least one by value (stale schedule decision in new wake_and_release)",
+    "C06-r3-1": "two models (or sub-models) registered under the same name, a deadlock leaving messages in the second one's mailbox (observer skipped for a repeated name)",
+    "C06-r3-2": "a step that both deadlocks a model of the simulation and sends to a mailbox that was never added (new MessageLoss arm)",
+    "C07-r3-1": "a periodic event, then a one-shot from the same origin whose time coincides with a later occurrence (recurrence re-inserted under the old epoch)",
+    "C07-r3-2": "> 256 events with the same deadline from the same origin (sequence split into separately spawned batches)",
+    "C08-r3-1": "step_until with nothing queued up to the target and a Scheduler::schedule* call landing while it waits on the clock (idle fast path: check and write not atomic)",
+    "C08-r3-2": "a pre-built keyed periodic action with a zero period passed to Scheduler::schedule (period() default not overridden)",
+    "C09-r3-1": "a keyed periodic event whose key is cancelled by an earlier event of the same model at the same time (new send_keyed_periodic_event checks the key only when sending)",
+    "C09-r3-2": "a one-shot keyed event scheduled by the driver, key handed to a model and cancelled by an earlier event at the same time (public method rebuilt on an un-keyed generator)",
+    "C10-r3-1": "a processed step, then a periodic action scheduled through the handle earlier than the next queued deadline, then a step_until short of that deadline (stale next-deadline hint)",
+    "C10-r3-2": ">= 3 same-origin actions due at the same instant and a target mailbox that fills mid-batch (SeqFuture drains completed futures without resetting idx)",
+    "C11-r3-1": "a clock tolerance, step_until to a time with no event, lag above the tolerance at the final synchronize (OutOfSync returned by a helper that cannot set is_terminated); rebased onto 3370f28, original patch kept as patch_orig_6b8fb82.diff",
+    "C11-r3-2": "an output wired with filter_map_connect to a mailbox dropped before the send (early `return None` when closed: NoRecipient never raised)",
+    "C12-r3-1": ">= 2 senders parked on a mailbox of capacity >= 2 (notify_one only when the queue was full before the pop)",
+    "C12-r3-2": "multi-threaded: two producers pushing to an empty mailbox at once while the receiver sleeps (notify only if len <= 1 after the push)",
+    "C13-r3-1": "no Promise / CancelToken / Waker alive when run starts and the future stashes a waker clone in the poll that returns Ready (sole-owner fast path frees the task)",
+    "C13-r3-2": ">= 2 wakes before the Runnable starts, then a wake by value during the poll (redundant-wake fast path skips the state update)",
+    "C14-r3-1": "a reply iterator consumed only partly, then another query with >= 2 accepting repliers (slots cleared only after a cancelled broadcast)",
+    "C14-r3-2": "clone B connects a replier, then clone A calls connect without having sent in between (write_through stamps the stale cache with the new epoch)",
+    "C15-r3-1": "a reader on another thread colliding with two back-to-back time updates (unvalidated slow path read_after_write)",
+    "C15-r3-2": "a step that fails after time advanced: panic, deadlock, timeout (time rolled back to the previous value)",
+    "C16-r3-1": "a sub-model sending to a dead mailbox (NoRecipient names the parent: observers are registered parent-first, names children-first)",
+    "C16-r3-2": "a sub-model added with a fresh mailbox that receives only through addresses it hands out itself (temporary Address in an assertion closes the mailbox)",
+    "C17-r3-1": "EventBuffer: write, partial read, overflowing writes, read (reader-side batch invisible to the capacity check)",
+    "C17-r3-2": "EventSlot: a read landing inside a write (has_event flag consumed before try_lock)",
+    "C18-r3-1": "a lag that does not terminate the run, then a step closer than that lag (synchronize skipped and a synthesized lag used)",
+    "C18-r3-2": "set_clock_tolerance(..) before set_clock(..) (set_clock resets the tolerance)",
+    "C19-r3-1": "single-threaded simulation failed by a panic, a model task still scheduled, a sender parked on that model's full mailbox (run queue cleared in Drop under a mutable borrow)",
+    "C19-r3-2": "multi-threaded simulation dropped while the driver thread is unwinding (early return skips join and cancellation)",
+    "C20-r3-1": "> 512 live entries, a full drain, new inserts, then an extract through a retained old key (release_if_drained resets next_epoch)",
+    "C20-r3-2": "insert A(k), insert B(k), insert C(<k) (cached front pair demoted with a fresh epoch)",
     "C19-2": "output with >= 2 connections, a full target mailbox, simulation dropped while the broadcast is pending (ManuallyDrop not released)",
 }
 
@@ -110,7 +150,7 @@ def _needs_from_notes(d):
 def main():
     os.makedirs(DST, exist_ok=True)
     n = 0
-    for cj in sorted(glob.glob(os.path.join(SRC, "C*", "*", "confirm.json")) + glob.glob(os.path.join("/tmp/mutout2", "C*", "*", "confirm.json"))):
+    for cj in sorted(glob.glob(os.path.join(SRC, "C*", "*", "confirm.json")) + glob.glob(os.path.join("/tmp/mutout2", "C*", "*", "confirm.json")) + glob.glob(os.path.join("/tmp/mutout3", "C*", "*", "confirm.json"))):
         d = os.path.dirname(cj)
         c = json.load(open(cj))
         sid = c["id"]
@@ -122,7 +162,7 @@ def main():
         out = os.path.join(DST, sid)
         os.makedirs(out, exist_ok=True)
         for f in os.listdir(d):
-            if f.endswith((".diff", ".rs", ".md")):
+            if f.endswith((".diff", ".rs", ".md")) or f == "place.json":
                 shutil.copy(os.path.join(d, f), os.path.join(out, f))
         files = sorted(set(l[6:].strip() for l in open(os.path.join(d, "patch.diff")) if l.startswith("+++ b/")))
         demos = sorted(f for f in os.listdir(out) if f.endswith(".rs") or f == "demo.diff")
@@ -133,7 +173,7 @@ def main():
             "breaks_property": sid.split("-")[0],
             "files_changed": files,
             "needs_to_manifest": NEEDS.get(sid, old.get("needs_to_manifest") or _needs_from_notes(d)),
-            "round": 2 if "-r2-" in sid else 1,
+            "round": 3 if "-r3-" in sid else (2 if "-r2-" in sid else 1),
             "demonstration": demos,
             "confirmed_by_me": {
                 "how": "tools/confirm_seed.sh on a scratch git worktree of /repo at %s (removed afterwards): git apply patch.diff; cargo build --workspace; "
